@@ -11,11 +11,14 @@ import (
 	"testing"
 	"unicode/utf8"
 
+	"golang.org/x/text/unicode/norm"
+
 	"seehuhn.de/go/pdf"
 	"seehuhn.de/go/pdf/document"
 	"seehuhn.de/go/pdf/font"
 	"seehuhn.de/go/pdf/font/charcode"
 	"seehuhn.de/go/pdf/font/textextract"
+	"seehuhn.de/go/pdf/graphics"
 	"seehuhn.de/go/pdf/graphics/extract"
 	"seehuhn.de/go/pdf/internal/debug/memfile"
 	"seehuhn.de/go/pdf/page"
@@ -68,9 +71,73 @@ const (
 // Over replaces the text of glyph Pos (modulo the number of glyphs) of a run.
 // The text may be empty: a glyph which carries no text of its own (trailing
 // glyph of a one-to-many substitution, decoration, text supplied separately).
+//
+// If Equiv is positive the override is chosen relative to the glyph it lands
+// on: Pos then counts (modulo their number) the glyphs of the run whose
+// laid-out text t has a canonically equivalent or look-alike spelling (see
+// equivalents), and the glyph gets the Equiv-th of these spellings instead of
+// Text: NFD(t) for a precomposed letter, U+2126 for U+03A9, U+212B for
+// U+00C5 ...  Text is ignored then, and nothing happens if no glyph of the
+// run has such a spelling.
 type Over struct {
-	Pos  int    `json:"pos"`
-	Text string `json:"text"`
+	Pos   int    `json:"pos"`
+	Text  string `json:"text"`
+	Equiv int    `json:"equiv,omitempty"`
+}
+
+// singletons pairs characters with a different character which is (or, for
+// the micro sign, looks) the same: Unicode singleton decompositions.
+var singletons = map[rune]rune{
+	0x03A9: 0x2126, 0x2126: 0x03A9, // Omega / ohm sign
+	0x00C5: 0x212B, 0x212B: 0x00C5, // A ring / angstrom sign
+	'K': 0x212A, 0x212A: 'K', // K / kelvin sign
+	';': 0x037E, 0x037E: ';', // semicolon / Greek question mark
+	0x00B7: 0x0387, 0x0387: 0x00B7, // middle dot / Greek ano teleia
+	'`': 0x1FEF, 0x1FEF: '`', // grave / Greek varia
+	0x00B5: 0x03BC, 0x03BC: 0x00B5, // micro sign / mu (compatibility only)
+}
+
+var lookAlikes = map[string]string{"fi": "ﬁ", "ﬁ": "fi", "fl": "ﬂ", "ﬂ": "fl", "ffi": "ﬃ", "ffl": "ﬄ", "ff": "ﬀ"}
+
+// equivalents lists the spellings of t which differ from t but are
+// canonically equivalent to it (same NFC form), followed by compatibility
+// look-alikes.  The order is fixed.
+func equivalents(t string) []string {
+	var res []string
+	add := func(s string) {
+		if s == "" || s == t {
+			return
+		}
+		for _, r := range res {
+			if r == s {
+				return
+			}
+		}
+		res = append(res, s)
+	}
+	if t == "" {
+		return nil
+	}
+	add(norm.NFD.String(t))
+	add(norm.NFC.String(t))
+	rr := []rune(t)
+	for i, r := range rr {
+		if q, ok := singletons[r]; ok {
+			cp := append([]rune{}, rr...)
+			cp[i] = q
+			add(string(cp))
+		}
+	}
+	if l, ok := lookAlikes[t]; ok {
+		add(l)
+	}
+	return res
+}
+
+// canonEquivalent reports whether a and b are different spellings of
+// canonically equivalent text.
+func canonEquivalent(a, b string) bool {
+	return a != b && a != "" && b != "" && norm.NFC.String(a) == norm.NFC.String(b)
 }
 
 // Run is one piece of text, laid out and shown with one font.
@@ -85,7 +152,18 @@ type Run struct {
 	// builder then has to split the run into several TJ/Tj operators with Ts
 	// operators between them.
 	Rise []int `json:"rise,omitempty"`
+	// Mode is the text rendering mode (Tr operator, 0-7) set through the
+	// builder before the run is shown.  Decoding the strings with the font is
+	// independent of it.  reader.Reader reports the characters of every mode
+	// except 3 (invisible), for which it makes no Character call at all
+	// (reader.go, processText: visible := mode != TextRenderingModeInvisible);
+	// the model mirrors exactly that.
+	Mode int `json:"mode,omitempty"`
 }
+
+// readerReports tells whether reader.Reader makes Character calls for text
+// shown in the given rendering mode.
+func readerReports(mode int) bool { return mode != int(graphics.TextRenderingModeInvisible) }
 
 // Step is one entry of the interleaving: lay out a run, call Encode for all
 // of its glyphs (forwards or backwards), or show it.  Steps which refer to a
@@ -121,6 +199,9 @@ type observed struct {
 	ligature    bool
 	override    bool
 	riseChange  bool
+	modeNot0    bool // a run read back was shown in a text rendering mode other than 0
+	mode7       bool // ... in mode 7 (clip only)
+	invisible   bool // ... in mode 3, which reader.Reader does not report
 	notdef      bool
 	manyCodes   bool
 	exact256    bool
@@ -133,6 +214,7 @@ type observed struct {
 	twoByte     bool
 	interleaved bool
 	onlyNotdef  bool // a font showed nothing but glyph 0 and was not read back
+	canonEquiv  bool // a simple font showed a glyph with a text that is canonically equivalent to, but not, the text its name implies
 	emptyText   bool // a glyph other than glyph 0 was shown with empty text and read back
 	onlyEmpty   bool // such a glyph was never shown with any other text in its font
 	glyphs      int
@@ -245,10 +327,12 @@ func (m *fontModel) checkRemaining() error {
 type shownGlyph struct {
 	g    font.Glyph
 	code []byte
+	orig string // the text Layout gave the glyph, before any override
 }
 
 type runState struct {
 	seq    *font.GlyphSeq
+	orig   []string // laid-out text of every glyph of seq
 	nLig   int
 	shown  bool
 	glyphs []shownGlyph // glyphs for which Encode succeeded, in order
@@ -276,7 +360,7 @@ func validate(c *Case) error {
 		return errors.New("invalid case: no runs")
 	}
 	for _, r := range c.Runs {
-		if r.Font < 0 || r.Font >= len(c.Fonts) || r.How < 0 || r.How >= numHow || r.Size < 1 ||
+		if r.Font < 0 || r.Font >= len(c.Fonts) || r.How < 0 || r.How >= numHow || r.Size < 1 || r.Mode < 0 || r.Mode > 7 ||
 			!utf8.ValidString(r.Text) || r.Text == "" || utf8.RuneCountInString(r.Text) > maxFillLen {
 			return fmt.Errorf("invalid case: run %+v", r)
 		}
@@ -286,7 +370,7 @@ func validate(c *Case) error {
 			}
 		}
 		for _, o := range r.Over {
-			if !utf8.ValidString(o.Text) || o.Pos < 0 { // the empty text is allowed
+			if !utf8.ValidString(o.Text) || o.Pos < 0 || o.Equiv < 0 { // the empty text is allowed
 				return fmt.Errorf("invalid case: override %+v", o)
 			}
 		}
@@ -343,8 +427,29 @@ func checkCase(c *Case) error {
 				rs[i].nLig++
 			}
 		}
+		rs[i].orig = make([]string, len(seq.Seq))
+		var eligible []int // glyphs with another spelling of their text
+		for j, g := range seq.Seq {
+			rs[i].orig[j] = g.Text
+			if g.GID != 0 && len(equivalents(g.Text)) > 0 {
+				eligible = append(eligible, j)
+			}
+		}
 		if n := len(seq.Seq); n > 0 {
 			for _, ov := range run.Over {
+				if ov.Equiv > 0 {
+					if len(eligible) == 0 {
+						continue
+					}
+					j := eligible[ov.Pos%len(eligible)]
+					ee := equivalents(rs[i].orig[j])
+					e := ee[(ov.Equiv-1)%len(ee)]
+					if seq.Seq[j].Text != e {
+						seq.Seq[j].Text = e
+						o.override = true
+					}
+					continue
+				}
 				g := &seq.Seq[ov.Pos%n]
 				if g.Text != ov.Text {
 					g.Text = ov.Text
@@ -405,6 +510,7 @@ func checkCase(c *Case) error {
 		codec := m.F.Codec()
 
 		doc.TextSetFont(m.F, float64(run.Size))
+		doc.TextSetRenderingMode(graphics.TextRenderingMode(run.Mode))
 		if len(order) == 0 {
 			doc.TextFirstLine(20, 400) // the Td operator marks the start of a run
 		} else {
@@ -421,7 +527,7 @@ func checkCase(c *Case) error {
 		// Which glyphs could be encoded?  For TextShowGlyphs this is asked
 		// after the builder has made its own Encode calls: a pair the builder
 		// encoded is known now, a pair it had to skip is refused again.
-		for _, g := range seq.Seq {
+		for j, g := range seq.Seq {
 			code, ok, err := m.encode(g)
 			if err != nil {
 				return err
@@ -433,7 +539,7 @@ func checkCase(c *Case) error {
 			if g.GID != 0 {
 				m.real++
 			}
-			rs[i].glyphs = append(rs[i].glyphs, shownGlyph{g: g, code: b})
+			rs[i].glyphs = append(rs[i].glyphs, shownGlyph{g: g, code: b, orig: rs[i].orig[j]})
 			rs[i].want = append(rs[i].want, b...)
 		}
 		if err := m.checkRemaining(); err != nil {
@@ -786,15 +892,29 @@ func readBack(c *Case, mf *memfile.MemFile, models []*fontModel, names []pdf.Nam
 				o.emptyText = true
 				continue
 			}
-			text := rc[j].Text
-			if text == "" {
+			glyphName := func() string {
 				gn, ok := glyphNames[seg.font]
 				if !ok {
 					mapping := textextract.GlyphNameMapping(rf)
 					gn = func(c font.Code) string { return mapping[c.CID] }
 					glyphNames[seg.font] = gn
 				}
-				text = gn(rc[j])
+				return gn(rc[j])
+			}
+			if m.kind.Enc == encSimple && canonEquivalent(sg.g.Text, sg.orig) {
+				// the text implied by the glyph's name: what the embedded
+				// font says, or else what Layout said
+				implied := glyphName()
+				if implied == "" {
+					implied = sg.orig
+				}
+				if canonEquivalent(sg.g.Text, implied) {
+					o.canonEquiv = true
+				}
+			}
+			text := rc[j].Text
+			if text == "" {
+				text = glyphName()
 				o.fallback = true
 			} else {
 				o.toUnicode = true
@@ -803,7 +923,17 @@ func readBack(c *Case, mf *memfile.MemFile, models []*fontModel, names []pdf.Nam
 				return fmt.Errorf("%s: reads back as %q (Code.Text %q, CID %d)", what, text, rc[j].Text, rc[j].CID)
 			}
 		}
-		allRead = append(allRead, rc...)
+		if readerReports(run.Mode) {
+			allRead = append(allRead, rc...)
+		} else {
+			o.invisible = true
+		}
+		if run.Mode != 0 {
+			o.modeNot0 = true
+		}
+		if run.Mode == int(graphics.TextRenderingModeClip) {
+			o.mode7 = true
+		}
 	}
 
 	// the same page through reader.Reader
